@@ -96,7 +96,13 @@ impl Prop for C17 {
                 return out;
             }
         };
-        let ex = expect(&c.kind, &c.special);
+        let ex = match tok.get_vocab().map_err(|e| e.to_string()).and_then(|v| expect(&c.kind, &c.special, &v)) {
+            Ok(e) => e,
+            Err(e) => {
+                out.fail(e);
+                return out;
+            }
+        };
         out.label(if *code_point_groups { "code_point_groups" } else { "bytes_groups" });
         out.label(if *sum { "sum" } else { "mean" });
         let np = c.special.prefix.len();
